@@ -1247,7 +1247,7 @@ func (p *Parser) parseFormatStringOperator() (token.Token, string, string, error
 	}
 	textToken := p.curToken
 	var fontID string
-	var fontIdToken token.Token
+	fontIdToken := textToken
 	if p.fonts == nil {
 		fc, err := LoadFontConfig(p.fontConfigFilepath)
 		if err != nil && p.enableEnvironmentErrors {
